@@ -99,60 +99,69 @@ func Load(cfg Config) (*Program, error) {
 			func(ps []*packages.Package) *norm.Result { return norm.Unroll(ps, Module) },
 			func(ps []*packages.Package) *norm.Result { return norm.Scalarise(ps, Module) },
 		}
-		for si, stage := range stages {
-			res := stage(pkgs)
-			notes = append(notes, res.Skipped...)
-			if len(res.Overlay) == 0 {
-				continue
-			}
-			ov := map[string][]byte{}
-			for k, v := range cum {
-				ov[k] = v
-			}
-			for k, v := range res.Overlay {
-				ov[k] = v
-			}
-			pkgs = nil
-			runtime.GC()
-			fset = token.NewFileSet()
-			pc2 := *pc
-			pc2.Fset = fset
-			pc2.Overlay = ov
-			pkgs2, err2 := loadPkgs(&pc2, cfg.Patterns)
-			if err2 != nil {
-				// the normaliser must never make a compiling tree undecidable: analyse the tree as it was before this stage
-				if d := os.Getenv("XPCHECK_DEBUG_NORM"); d != "" {
-					for f, b := range res.Overlay {
-						os.WriteFile(d+"/"+strings.ReplaceAll(strings.TrimPrefix(f, cfg.Dir+"/"), "/", "__"), b, 0o644)
+		for round := 0; round < 3; round++ {
+			progress := false
+			for si, stage := range stages {
+				res := stage(pkgs)
+				if round == 0 {
+					notes = append(notes, res.Skipped...)
+				}
+				if len(res.Overlay) == 0 {
+					continue
+				}
+				ov := map[string][]byte{}
+				for k, v := range cum {
+					ov[k] = v
+				}
+				for k, v := range res.Overlay {
+					ov[k] = v
+				}
+				pkgs = nil
+				runtime.GC()
+				fset = token.NewFileSet()
+				pc2 := *pc
+				pc2.Fset = fset
+				pc2.Overlay = ov
+				pkgs2, err2 := loadPkgs(&pc2, cfg.Patterns)
+				if err2 != nil {
+					// the normaliser must never make a compiling tree undecidable: analyse the tree as it was before this stage
+					if d := os.Getenv("XPCHECK_DEBUG_NORM"); d != "" {
+						for f, b := range res.Overlay {
+							os.WriteFile(d+"/"+strings.ReplaceAll(strings.TrimPrefix(f, cfg.Dir+"/"), "/", "__"), b, 0o644)
+						}
+					}
+					notes = append(notes, fmt.Sprintf("normal form (round %d stage %d) rejected by the type checker, analysing the tree without it: %s", round+1, si+1, err2.Error()))
+					fset = token.NewFileSet()
+					pc3 := *pc
+					pc3.Fset = fset
+					pc3.Overlay = cum
+					if pkgs, err = loadPkgs(&pc3, cfg.Patterns); err != nil {
+						return nil, err
+					}
+					continue
+				}
+				progress = true
+				pkgs = pkgs2
+				cum = ov
+				if normOverlay == nil {
+					normOverlay = map[string][]byte{}
+				}
+				for k, v := range res.Overlay {
+					normOverlay[k] = v
+				}
+				if si == 0 {
+					dead = norm.DeadHelpers(pkgs, norm.Known(), Module)
+				}
+				for _, s := range res.Inlined {
+					if si == 0 {
+						notes = append(notes, "inlined "+s)
+					} else {
+						notes = append(notes, s)
 					}
 				}
-				notes = append(notes, fmt.Sprintf("normal form (stage %d) rejected by the type checker, analysing the tree without it: %s", si+1, err2.Error()))
-				fset = token.NewFileSet()
-				pc3 := *pc
-				pc3.Fset = fset
-				pc3.Overlay = cum
-				if pkgs, err = loadPkgs(&pc3, cfg.Patterns); err != nil {
-					return nil, err
-				}
-				continue
 			}
-			pkgs = pkgs2
-			cum = ov
-			if normOverlay == nil {
-				normOverlay = map[string][]byte{}
-			}
-			for k, v := range res.Overlay {
-				normOverlay[k] = v
-			}
-			if si == 0 {
-				dead = norm.DeadHelpers(pkgs, norm.Known(), Module)
-			}
-			for _, s := range res.Inlined {
-				if si == 0 {
-					notes = append(notes, "inlined "+s)
-				} else {
-					notes = append(notes, s)
-				}
+			if !progress {
+				break
 			}
 		}
 	}
